@@ -682,6 +682,66 @@ def _disjoint(lay):
     return True
 
 
+class LayoutChanges(Unit):
+    """the layout is an ARGUMENT of every call: the same dictionary object used with other contents (edited in place
+    between two calls), and a second dictionary with the same field name, are decoded / encoded by what they contain at
+    the time of the call -- nothing learnt from an earlier call about 'this' layout may be reused"""
+
+    name = "converter/layout-changes-between-calls"
+    properties = ("C10",)
+    PAIRS = ((0x01, 0, 0x02, 0), (0xF0, 1, 0x0F, 1), (0xFF, 0, 0xFFFF, 2), (0x3FFC, 1, 0x7F, 3), (0xFFFFFFFF, 0, 0x1F00, 4), (0x80, 5, 0xFFFFFF, 1))
+
+    def functions(self):
+        return [conv().decode_bits, conv().encode_dict]
+
+    def cases(self, tier):
+        return [{"pair": i, "how": how} for i in range(len(self.PAIRS)) for how in ("edited-in-place", "second-dictionary")]
+
+    def inputs(self, case):
+        m1, o1, m2, o2 = self.PAIRS[case["pair"]]
+        return {"data": Bytes(10, mutable=False), "v1": U(bin(m1).count("1")), "v2": U(bin(m2).count("1"))}
+
+    def run(self, X, case, a):
+        m1, o1, m2, o2 = self.PAIRS[case["pair"]]
+        layout = {"f": [m1, o1]}
+        d1, d2 = {}, {}
+        X.call(conv().decode_bits, a.data, layout, d1)
+        e1 = V.SBytes([0] * 10, True) if X.symbolic else bytearray(10)
+        X.call(conv().encode_dict, {"f": a.v1}, layout, e1)
+        if case["how"] == "edited-in-place":
+            layout["f"] = [m2, o2]
+        else:
+            layout = {"f": [m2, o2]}
+        X.call(conv().decode_bits, a.data, layout, d2)
+        e2 = V.SBytes([0] * 10, True) if X.symbolic else bytearray(10)
+        X.call(conv().encode_dict, {"f": a.v2}, layout, e2)
+        return d1, list(e1), d2, list(e2)
+
+    def ensures(self, case, a, out, X):
+        if out.kind != "return":
+            yield "C10", "returns (raised %s)" % type(out.exc).__name__, False
+            return
+        m1, o1, m2, o2 = self.PAIRS[case["pair"]]
+        d1, e1, d2, e2 = out.value
+        data = list(a.data)
+        for tag, d, e, m, o, v in (("first", d1, e1, m1, o1, a.v1), ("second", d2, e2, m2, o2, a.v2)):
+            nb = nbytes(m)
+            yield "C10", "%s-call:decode-follows-the-layout-it-was-given" % tag, d.get("f") == spec_decode_field(spec_ba_to_int(data[o:o + nb]), m)
+            exp = [0] * 10
+            for k, b in enumerate(spec_encode_bytes(v, m)):
+                exp[o + k] = b
+            ok = len(e) == 10
+            yield "C10", "%s-call:encode-length" % tag, ok
+            if ok:
+                for i in range(10):
+                    yield "C10", "%s-call:encode-follows-the-layout-it-was-given:byte%d" % (tag, i), e[i] == exp[i]
+
+    def canaries(self, case, a, out, X):
+        if out.kind == "return":
+            m1, o1, m2, o2 = self.PAIRS[case["pair"]]
+            yield "canary:second-decode-off-by-one", out.value[2].get("f") == spec_decode_field(spec_ba_to_int(list(a.data)[o2:o2 + nbytes(m2)]), m2) + 1
+
+
 register(IntToBa())
 register(BaToInt())
 register(EncodeField())
@@ -689,3 +749,4 @@ register(DecodeField())
 register(DecodeShort())
 register(Blobs())
 register(LayoutOrder())
+register(LayoutChanges())
